@@ -109,7 +109,7 @@ PLAN = {
         "exhaustive_note": "all sample sets over <= 3 ids with objectives {0,1}, every feasibility pattern, both senses, current and legacy layout, objectives stored per id or grouped by value, direct and through encode/decode",
     },
     "C16": {
-        "mc": [MC_INTERVAL], "lift_every": 17,
+        "mc": [MC_INTERVAL], "lift_every": 17, "rescale_every": 1,
         "gen": [G("bound", "Gen_Fn_Bound.cfg"), G("contains", "Gen_Fn_Contains.cfg"), G("evalbound", "Gen_Fn_EvalBound.cfg"), G("content", "Gen_Fn_Content.cfg")],
         "drive": [D("eval_bound", 2000, 100000), D("content_factor", 2000, 100000)],
         "exhaustive_note": "all 43 valid intervals over {-inf,-3,-1,-1/2,0,1/2,1,2,+inf}: all pairs for + and x, exponents 0..6, 4 scalings",
